@@ -15,11 +15,18 @@ echo "== demo with the change (expect FAIL / exit 1)"
 echo "== demo without the change (expect PASS / exit 0)"
 (cd $WT && git checkout -- src && PYTHONPATH=$WT/src timeout 600 /venv/bin/python $DEMO 2>&1 | tail -3; echo "exit=${PIPESTATUS[0]}"; git apply $DST/patch.diff) | tee $DST/demo_without_change.log
 echo "== our checks with the change applied to /repo"
-git -C /repo apply $DST/patch.diff || { echo "PATCH DOES NOT APPLY"; exit 2; }
 OUT=$(mktemp -d /var/tmp/seeded-XXXX)
-for c in $CHECKS; do
-  (cd /verif && PYVC_OUT_DIR=$OUT ./vcheck $c --tier quick 2>&1 | cut -c1-260 | tail -6; echo "check $c exit=${PIPESTATUS[0]}") | tee -a $DST/checks.log
-done
-git -C /repo checkout -- .
+if [ -n "${SEEDED_VIA_WORKTREE:-}" ]; then
+  # a background run is using /repo: point the checks at the scratch worktree's sources instead (same change, /repo untouched)
+  for c in $CHECKS; do
+    (cd /verif && PYVC_REPO_SRC=$WT/src PYVC_OUT_DIR=$OUT ./vcheck $c --tier quick 2>&1 | cut -c1-260 | tail -6; echo "check $c exit=${PIPESTATUS[0]} (sources: scratch worktree)") | tee -a $DST/checks.log
+  done
+else
+  git -C /repo apply $DST/patch.diff || { echo "PATCH DOES NOT APPLY"; exit 2; }
+  for c in $CHECKS; do
+    (cd /verif && PYVC_OUT_DIR=$OUT ./vcheck $c --tier quick 2>&1 | cut -c1-260 | tail -6; echo "check $c exit=${PIPESTATUS[0]}") | tee -a $DST/checks.log
+  done
+  git -C /repo checkout -- .
+fi
 rm -rf $OUT
 git -C /repo status --short | grep -v "_tau_leap" || true
